@@ -165,6 +165,7 @@ trait Coll: Sized {
     fn mark_done(&mut self);
     fn is_done(&self) -> bool;
     async fn contents(&self) -> String;
+    #[allow(dead_code)]
     fn len_hint(&self) -> usize;
 
     fn subscribe(&self, incr: bool, buf: usize) -> Self::Sub;
@@ -172,6 +173,8 @@ trait Coll: Sized {
     /// `recv()` as text: `Ok(Some(ev))` -> event text, `Ok(None)` -> `eof`, `Err(e)` -> `err:<e>`
     async fn recv(sub: &mut Self::Sub) -> String;
     fn mirror(sub: Self::Sub, max: usize) -> Self::Mirror;
+    /// `Mirrored*::subscribe` / `subscribe_incremental` (not offered by the list mirror)
+    async fn mirror_subscribe(m: &Self::Mirror, incr: bool, buf: usize) -> Option<Self::Sub>;
     /// `borrow()`: contents, complete, done — or the stored error
     async fn borrow(m: &Self::Mirror) -> Result<(String, bool, bool), String>;
     async fn detach(m: Self::Mirror) -> String;
@@ -423,6 +426,9 @@ impl Coll for CVec {
     fn mirror(sub: Self::Sub, max: usize) -> Self::Mirror {
         sub.mirror(max)
     }
+    async fn mirror_subscribe(m: &Self::Mirror, incr: bool, buf: usize) -> Option<Self::Sub> {
+        if incr { m.subscribe_incremental(buf).await.ok() } else { m.subscribe(buf).await.ok() }
+    }
     async fn borrow(m: &Self::Mirror) -> Result<(String, bool, bool), String> {
         match m.borrow().await {
             Ok(r) => Ok((list_text(r.iter().copied()), r.is_complete(), r.is_done())),
@@ -601,6 +607,9 @@ impl Coll for CDeque {
     }
     fn mirror(sub: Self::Sub, max: usize) -> Self::Mirror {
         sub.mirror(max)
+    }
+    async fn mirror_subscribe(m: &Self::Mirror, incr: bool, buf: usize) -> Option<Self::Sub> {
+        if incr { m.subscribe_incremental(buf).await.ok() } else { m.subscribe(buf).await.ok() }
     }
     async fn borrow(m: &Self::Mirror) -> Result<(String, bool, bool), String> {
         match m.borrow().await {
@@ -884,6 +893,9 @@ impl Coll for CMap {
     fn mirror(sub: Self::Sub, max: usize) -> Self::Mirror {
         sub.mirror(max)
     }
+    async fn mirror_subscribe(m: &Self::Mirror, incr: bool, buf: usize) -> Option<Self::Sub> {
+        if incr { m.subscribe_incremental(buf).await.ok() } else { m.subscribe(buf).await.ok() }
+    }
     async fn borrow(m: &Self::Mirror) -> Result<(String, bool, bool), String> {
         match m.borrow().await {
             Ok(r) => Ok((map_text(&r), r.is_complete(), r.is_done())),
@@ -1011,6 +1023,9 @@ impl Coll for CSet {
     fn mirror(sub: Self::Sub, max: usize) -> Self::Mirror {
         sub.mirror(max)
     }
+    async fn mirror_subscribe(m: &Self::Mirror, incr: bool, buf: usize) -> Option<Self::Sub> {
+        if incr { m.subscribe_incremental(buf).await.ok() } else { m.subscribe(buf).await.ok() }
+    }
     async fn borrow(m: &Self::Mirror) -> Result<(String, bool, bool), String> {
         match m.borrow().await {
             Ok(r) => Ok((set_text(&r), r.is_complete(), r.is_done())),
@@ -1085,6 +1100,9 @@ impl Coll for CList {
     }
     fn mirror(sub: Self::Sub, max: usize) -> Self::Mirror {
         sub.mirror(max)
+    }
+    async fn mirror_subscribe(_m: &Self::Mirror, _incr: bool, _buf: usize) -> Option<Self::Sub> {
+        None
     }
     async fn borrow(m: &Self::Mirror) -> Result<(String, bool, bool), String> {
         match m.borrow().await {
@@ -1177,6 +1195,9 @@ async fn run_c13<C: Coll>(id: &str, script: &[String], r: &mut Rng, st: &mut Sta
     let mut link: Option<Link<C::Sub>> = None;
     let mut holders: Vec<(usize, Holder<C>)> = Vec::new();
     let mut sid = 0usize;
+    // mirrors hit by finding F13 (incremental subscription after done()): for hash containers what they hold
+    // is an arbitrary single element, so they are not used as the source of further subscriptions
+    let mut f13: HashSet<usize> = HashSet::new();
 
     // expand `gen` lines lazily so that generated operations can look at the live contents
     let mut queue: std::collections::VecDeque<String> = script.iter().cloned().collect();
@@ -1224,6 +1245,9 @@ async fn run_c13<C: Coll>(id: &str, script: &[String], r: &mut Rng, st: &mut Sta
                 st.hit(&format!("sub_{}_{}_{}", if incr { "incr" } else { "snap" }, w[1], w[2]));
                 if c.is_done() {
                     st.hit(if incr { "sub_after_done_incr" } else { "sub_after_done_snap" });
+                    if incr && is_mirror && !C::ONLY_INCR {
+                        f13.insert(sid);
+                    }
                 }
                 if is_mirror {
                     holders.push((sid, Holder::Mirror(C::mirror(sub, 1_000_000))));
@@ -1232,11 +1256,49 @@ async fn run_c13<C: Coll>(id: &str, script: &[String], r: &mut Rng, st: &mut Sta
                 }
                 sid += 1;
             }
+            "sub2" => {
+                // subscription obtained from a mirror (`Mirrored*::subscribe`): `sub2 <source sid> <mode> <where> <kind>`
+                let w: Vec<&str> = rest.split(' ').collect();
+                let src: usize = w[0].parse().unwrap();
+                let incr = w[1] == "incr";
+                let remote = w[2] == "remote";
+                let is_mirror = w[3] == "mirror";
+                settle().await;
+                let got = match holders.iter().find(|(s, _)| *s == src) {
+                    Some((_, Holder::Mirror(m))) if !f13.contains(&src) => C::mirror_subscribe(m, incr, 1_000_000).await,
+                    _ => None,
+                };
+                if let Some(mut sub) = got {
+                    if remote {
+                        if link.is_none() {
+                            link = Some(Link::new().await);
+                        }
+                        sub = link.as_mut().unwrap().transfer(sub).await;
+                    }
+                    let _ = writeln!(
+                        out,
+                        "sub {sid} {} {} {} src={src}",
+                        if incr { "incr" } else { "snap" },
+                        if remote { "remote" } else { "local" },
+                        if is_mirror { "mirror" } else { "hand" }
+                    );
+                    st.hit(&format!("sub2_{}_{}_{}", w[1], w[2], w[3]));
+                    if is_mirror {
+                        holders.push((sid, Holder::Mirror(C::mirror(sub, 1_000_000))));
+                    } else {
+                        holders.push((sid, Holder::Hand(sub, incr)));
+                    }
+                    sid += 1;
+                } else {
+                    st.hit("sub2_unavailable");
+                    sid += 1;
+                }
+            }
             "gen" => {
                 let c = coll.as_ref().unwrap();
                 let n: usize = rest.parse().unwrap();
                 if n > 0 {
-                    let opline = if r.chance(1, 150) { "done".to_string() } else { format!("op {}", c.gen_op(r, st)) };
+                    let opline = if r.chance(1, 400) { "done".to_string() } else { format!("op {}", c.gen_op(r, st)) };
                     queue.push_front(format!("gen {}", n - 1));
                     queue.push_front(opline);
                 }
@@ -1298,37 +1360,49 @@ async fn run_c13<C: Coll>(id: &str, script: &[String], r: &mut Rng, st: &mut Sta
 
     // everything has been sent; let the mirrors catch up and read the hand subscriptions dry
     settle().await;
-    for (sid, h) in holders {
-        match h {
-            Holder::Hand(mut sub, incr) => {
-                if !incr {
-                    let init = C::take_initial(&mut sub).unwrap_or_else(|| "?".into());
-                    let _ = writeln!(out, "initial {sid} {init}");
-                }
-                let mut n = 0;
-                loop {
-                    let e = recv_or_pending::<C>(&mut sub).await;
-                    let _ = writeln!(out, "recv {sid} {e}");
-                    n += 1;
-                    if e == "pending" || e == "eof" || e.starts_with("err:") || n > 100_000 {
-                        break;
-                    }
-                }
+    // nothing is dropped before everything has been read: dropping a mirror closes the subscriptions
+    // obtained from it
+    let mut errored: Vec<(usize, C::Mirror, String)> = Vec::new();
+    let mut keep: Vec<C::Mirror> = Vec::new();
+    let mut mirror_lines: Vec<(usize, String)> = Vec::new();
+    for (sid, h) in holders.iter_mut() {
+        if let Holder::Hand(sub, incr) = h {
+            if !*incr {
+                let init = C::take_initial(sub).unwrap_or_else(|| "?".into());
+                let _ = writeln!(out, "initial {sid} {init}");
             }
-            Holder::Mirror(m) => {
-                settle().await;
-                match C::borrow(&m).await {
-                    Ok((c, complete, done)) => {
-                        let _ = writeln!(out, "mirror {sid} {c} complete={} done={} err=-", complete as u8, done as u8);
-                    }
-                    Err(e) => {
-                        let c = C::detach(m).await;
-                        let _ = writeln!(out, "mirror {sid} {c} complete=? done=? err={e}");
-                    }
+            let mut n = 0;
+            loop {
+                let e = recv_or_pending::<C>(sub).await;
+                let _ = writeln!(out, "recv {sid} {e}");
+                n += 1;
+                if e == "pending" || e == "eof" || e.starts_with("err:") || n > 100_000 {
+                    break;
                 }
             }
         }
     }
+    settle().await;
+    for (sid, h) in holders {
+        if let Holder::Mirror(m) = h {
+            match C::borrow(&m).await {
+                Ok((c, complete, done)) => {
+                    mirror_lines.push((sid, format!("mirror {sid} {c} complete={} done={} err=-", complete as u8, done as u8)));
+                    keep.push(m);
+                }
+                Err(e) => errored.push((sid, m, e)),
+            }
+        }
+    }
+    for (sid, m, e) in errored {
+        let c = C::detach(m).await;
+        mirror_lines.push((sid, format!("mirror {sid} {c} complete=? done=? err={e}")));
+    }
+    mirror_lines.sort();
+    for (_, l) in mirror_lines {
+        let _ = writeln!(out, "{l}");
+    }
+    drop(keep);
     if let Some(mut l) = link {
         l.cut();
     }
@@ -1358,12 +1432,29 @@ fn gen_c13_script<C: Coll>(r: &mut Rng) -> Vec<String> {
         )
     };
     let mut pos = 0;
+    let mut mirrors: Vec<usize> = Vec::new();
+    let mut n_sub = 0;
     for p in points {
         if p > pos {
             s.push(format!("gen {}", p - pos));
             pos = p;
+            // a subscription obtained from one of the mirrors created so far
+            if !mirrors.is_empty() && !C::ONLY_INCR && r.chance(1, 3) {
+                let src = *r.pick(&mirrors);
+                let l = sub_line(r);
+                if l.ends_with("mirror") {
+                    mirrors.push(n_sub);
+                }
+                s.push(format!("sub2 {src} {}", &l[4..]));
+                n_sub += 1;
+            }
         }
-        s.push(sub_line(r));
+        let l = sub_line(r);
+        if l.ends_with("mirror") {
+            mirrors.push(n_sub);
+        }
+        n_sub += 1;
+        s.push(l);
     }
     if n_ops > pos {
         s.push(format!("gen {}", n_ops - pos));
